@@ -51,7 +51,35 @@ def gen_prog(rng):
     return {"spec": spec, "preds": preds, "defs": defs, "calls": calls, "seq": seq, "utab": utab}
 
 
+class ResolutionCounter:
+    """counts MultiTypeMap.mro invocations (the one place where candidates are computed, ranked and user hooks can be
+    reached) by wrapping the method from outside -- no source hook"""
+
+    def __init__(self):
+        self.n = 0
+
+    def __enter__(self):
+        from ovld import typemap
+        self.tm = typemap
+        self.orig = typemap.MultiTypeMap.mro
+        me = self
+
+        def counted(map_self, *a, **k):
+            me.n += 1
+            return me.orig(map_self, *a, **k)
+        typemap.MultiTypeMap.mro = counted
+        return self
+
+    def __exit__(self, *exc):
+        self.tm.MultiTypeMap.mro = self.orig
+
+
 def check(ctx, prog, stats):
+    with ResolutionCounter() as rc:
+        return check_counted(ctx, prog, stats, rc)
+
+
+def check_counted(ctx, prog, stats, rc):
     w = world_from(prog["spec"], prog["preds"])
     b = progs.Built(w, prog["defs"], utab=prog.get("utab"))
     counter = w.pred_calls
@@ -65,13 +93,35 @@ def check(ctx, prog, stats):
     for step, i in enumerate(prog["seq"]):
         call = prog["calls"][i]
         before = counter[0]
+        rbefore = rc.n
         out, entered = b.call([w.instance(c) for c in call["pos"]])
         stats["evaluations"] += 1
         if ok[i]:
             stats["hits_expected"] += 1
+            case = {"spec": prog["spec"], "preds": prog["preds"], "defs": prog["defs"], "calls": prog["calls"], "seq": prog["seq"][: step + 1], "utab": prog.get("utab")}
             if counter[0] != before:
-                ctx.violation(f"user class predicate consulted {counter[0] - before} more time(s) on a repeated call that had succeeded",
-                              {"spec": prog["spec"], "preds": prog["preds"], "defs": prog["defs"], "calls": prog["calls"], "seq": prog["seq"][: step + 1]})
+                ctx.violation(f"user class predicate consulted {counter[0] - before} more time(s) on a repeated call that had succeeded", case)
+                return
+            if rc.n != rbefore:
+                ctx.violation(f"{rc.n - rbefore} resolution(s) (MultiTypeMap.mro) computed on a repeated call that had succeeded", dict(case, resolutions=True))
+                return
+    # operations that do not change the set of methods must not throw the tables away: adding no mixin, adding the function to itself
+    for noop in ("add_mixins()", "add_mixins(self)"):
+        try:
+            b.ov.add_mixins(*([b.ov] if noop.endswith("(self)") else []))
+        except Exception:   # a locked function refuses: nothing to observe
+            continue
+        for step, i in enumerate(prog["seq"][:8]):
+            if not ok[i]:
+                continue
+            call = prog["calls"][i]
+            before, rbefore = counter[0], rc.n
+            b.call([w.instance(c) for c in call["pos"]])
+            stats["evaluations"] += 1
+            stats["calls_after_noop_operations"] += 1
+            if counter[0] != before or rc.n != rbefore:
+                ctx.violation(f"after {noop} (no method added) a call that had succeeded consults hooks / resolves again ({counter[0] - before} predicate calls, {rc.n - rbefore} resolutions)",
+                              {"spec": prog["spec"], "preds": prog["preds"], "defs": prog["defs"], "calls": prog["calls"], "seq": prog["seq"][: step + 1], "utab": prog.get("utab"), "noop": noop})
                 return
     # a registration must allow recomputation (and must not break anything): counters may move again
     before = counter[0]
@@ -117,23 +167,17 @@ def run(ctx):
             "rule": "random worlds with 1-3 counting class predicates; 2-6 methods over 1-2 positions annotated with classes, class_check predicates and Exactly[...] types, bodies returning, delegating with call_next or re-entering with recurse; warm-up = each of 8 calls once; then 10-30 repeated calls; every program has at least one predicate-typed or plain method and counts as non-trivial; distinct by content",
             "samples": samples, "programs": stats["programs"], "repeated_calls_expected_to_hit": stats["hits_expected"],
             "hook_invocations_during_warmup": stats["warmup_hook_calls"],
-            "programs_where_registration_triggered_recomputation": stats["recomputed_after_registration"],
+            "programs_where_registration_triggered_recomputation": stats["recomputed_after_registration"], "calls_after_noop_operations": stats["calls_after_noop_operations"],
             "traces_validated_against_impl": stats["evaluations"]}
 
 
 def replay(ctx, payload):
+    """re-run the recorded program (warm-up, repeated calls, no-op operations); reproduced iff a counter moves again"""
     case = payload["case"]
-    w = world_from(case["spec"], case["preds"])
-    b = progs.Built(w, case["defs"], utab=case.get("utab"))
-    for call in case["calls"]:
-        b.call([w.instance(c) for c in call["pos"]])
-    c0 = w.pred_calls[0]
-    moved = False
-    for i in case["seq"]:
-        before = w.pred_calls[0]
-        b.call([w.instance(c) for c in case["calls"][i]["pos"]])
-        moved = w.pred_calls[0] != before
-    return moved
+    prog = case.get("prog", case)
+    before = len(ctx.violations)
+    check(ctx, prog, collections.Counter())
+    return len(ctx.violations) > before
 
 
 def replay_finding(ctx, e):
